@@ -61,6 +61,53 @@ fn unit_json(u: &anything::Compound) -> Value {
     json!(out)
 }
 
+fn compound_from(v: &Value) -> Result<anything::Compound, String> {
+    // [[unit, power, prefix], ..] with unit = "Meter" | {"derived": id}
+    let mut names = std::collections::BTreeMap::new();
+    for e in v.as_array().ok_or("unit entries")? {
+        let key = match &e[0] {
+            Value::String(s) => serde_cbor::Value::Text(s.clone()),
+            Value::Object(o) => {
+                let id = o.get("derived").and_then(|v| v.as_u64()).ok_or("derived id")?;
+                let mut m = std::collections::BTreeMap::new();
+                m.insert(serde_cbor::Value::Text("Derived".into()), serde_cbor::Value::Integer(id as i128));
+                serde_cbor::Value::Map(m)
+            }
+            _ => return Err("bad unit key".into()),
+        };
+        let mut st = std::collections::BTreeMap::new();
+        st.insert(serde_cbor::Value::Text("power".into()), serde_cbor::Value::Integer(e[1].as_i64().ok_or("power")? as i128));
+        st.insert(serde_cbor::Value::Text("prefix".into()), serde_cbor::Value::Integer(e[2].as_i64().ok_or("prefix")? as i128));
+        names.insert(key, serde_cbor::Value::Map(st));
+    }
+    let mut top = std::collections::BTreeMap::new();
+    top.insert(serde_cbor::Value::Text("names".into()), serde_cbor::Value::Map(names));
+    let bytes = serde_cbor::to_vec(&serde_cbor::Value::Map(top)).map_err(|e| e.to_string())?;
+    serde_cbor::from_slice(&bytes).map_err(|e| e.to_string())
+}
+
+fn rational_from(v: &Value) -> Result<Rational, String> {
+    let s = v.as_str().ok_or("rational string")?;
+    let (n, d) = match s.split_once('/') {
+        Some((n, d)) => (n, d),
+        None => (s, "1"),
+    };
+    let n: num::BigInt = n.parse().map_err(|_| "numerator")?;
+    let d: num::BigInt = d.parse().map_err(|_| "denominator")?;
+    Ok(Rational::new(n, d))
+}
+
+fn numeric_from(v: &Value) -> Result<anything::Numeric, String> {
+    Ok(anything::Numeric::new(rational_from(&v["value"])?, compound_from(&v["unit"])?))
+}
+
+fn result_json(r: Result<anything::Numeric, anything::Error>) -> Value {
+    match r {
+        Ok(n) => json!({ "ok": numeric_json(&n) }),
+        Err(e) => json!({ "err": e.to_string() }),
+    }
+}
+
 fn numeric_json(n: &anything::Numeric) -> Value {
     json!({ "value": rat_json(&n.value), "unit": unit_json(&n.unit), "unit_text": n.unit.to_string() })
 }
@@ -189,6 +236,42 @@ fn run(case: &Value) -> Value {
                 out.push(json!([format!("{:?}", u).split('(').next().unwrap_or("?"), p]));
             }
             json!({ "ok": out })
+        }
+        "numeric_op" => {
+            let a = match numeric_from(&case["a"]) { Ok(a) => a, Err(e) => return json!({ "err": format!("bad case: {}", e) }) };
+            let b = match numeric_from(&case["b"]) { Ok(b) => b, Err(e) => return json!({ "err": format!("bad case: {}", e) }) };
+            match anything::verif::binary(case["fn"].as_str().unwrap_or(""), a, b) {
+                Some(r) => json!({ "ok": [result_json(r)] }),
+                None => json!({ "err": "unknown operator" }),
+            }
+        }
+        "factor" => {
+            let target = match compound_from(&case["target"]) { Ok(a) => a, Err(e) => return json!({ "err": format!("bad case: {}", e) }) };
+            let source = match compound_from(&case["source"]) { Ok(a) => a, Err(e) => return json!({ "err": format!("bad case: {}", e) }) };
+            let mut value = match rational_from(&case["value"]) { Ok(a) => a, Err(e) => return json!({ "err": format!("bad case: {}", e) }) };
+            match anything::verif::factor(&target, &source, &mut value) {
+                Some(ok) => json!({ "ok": { "commensurable": ok, "value": rat_json(&value) } }),
+                None => json!({ "ok": { "refused": true } }),
+            }
+        }
+        "call" => {
+            let mut args = Vec::new();
+            for a in case["args"].as_array().cloned().unwrap_or_default() {
+                match numeric_from(&a) { Ok(a) => args.push(a), Err(e) => return json!({ "err": format!("bad case: {}", e) }) }
+            }
+            match anything::verif::call(case["name"].as_str().unwrap_or(""), args) {
+                Some(r) => json!({ "ok": [result_json(r)] }),
+                None => json!({ "err": "no such builtin" }),
+            }
+        }
+        "unit_word" => {
+            match anything::verif::unit_word(case["word"].as_str().unwrap_or("")) {
+                Some((rest, prefix, unit)) => {
+                    let c: anything::Compound = std::iter::FromIterator::from_iter([(unit, (1, prefix))]);
+                    json!({ "ok": { "rest": rest, "prefix": prefix, "unit": unit_json(&c) } })
+                }
+                None => json!({ "ok": null }),
+            }
         }
         "compound" => {
             let text = case["text"].as_str().unwrap_or("");
